@@ -1,7 +1,11 @@
 //! C04: vocabulary maps of the byte, character and BPE tokenizers against the model.
 //! input  = (kind padto tokens pad prefix suffix unk alphabet merges maxv probes)
 //! output = (0) | (1 vocab_size vocab id_to_token* token_to_id_of_vocab* token_to_id_probe*
-//!                   pad prefix_ids suffix_ids unk? decode_single*)
+//!                   pad prefix_ids suffix_ids unk? decode_single* [fb lv])
+//!          BPE only: fb = the bytes of the merge file the crate's `save` wrote, lv = ((id key) ...) = the real
+//!          `MergeOps::load` of it (the model decodes fb itself: MsgPack_Model.v)
+#[path = "../bpe_common.rs"]
+mod bpe;
 #[path = "../tok_common.rs"]
 mod tc;
 use std::collections::HashMap;
@@ -120,8 +124,9 @@ impl Built {
     }
 }
 
-fn build(c: &Cfg4, file: &PathBuf) -> anyhow::Result<Built> {
-    Ok(match c.kind {
+fn build(c: &Cfg4, file: &PathBuf) -> anyhow::Result<(Built, Option<bpe::MergeFile>)> {
+    let mut mf = None;
+    let b = match c.kind {
         0 => Built::Byte(ByteTokenizer::new(c.tc.byte_cfg(GroupAggregation::Mean), c.tc.special())?),
         1 => Built::Char(CharTokenizer::new(
             CharTokenizerConfig { use_graphemes: false, unk_token: c.tc.unk.clone() },
@@ -131,6 +136,14 @@ fn build(c: &Cfg4, file: &PathBuf) -> anyhow::Result<Built> {
             let ops: MergeOps = c.merges.iter().enumerate().map(|(i, m)| (m.clone(), i as u32)).collect::<HashMap<_, _>>();
             std::fs::create_dir_all(file.parent().unwrap())?;
             ops.save(file)?;
+            // what is on disk, and what the real loader reads from it
+            let bytes = std::fs::read(file)?;
+            let loaded = MergeOps::load(file).ok().map(|m| {
+                let mut l: Vec<(u32, Vec<u8>)> = m.into_iter().map(|(k, i)| (i, k)).collect();
+                l.sort();
+                l
+            });
+            mf = Some(bpe::MergeFile { bytes, loaded });
             let r = BPETokenizer::new(
                 BPETokenizerConfig { merge_file: file.clone(), max_vocab_size: c.maxv, use_graphemes: false },
                 c.tc.special(),
@@ -138,7 +151,8 @@ fn build(c: &Cfg4, file: &PathBuf) -> anyhow::Result<Built> {
             let _ = std::fs::remove_file(file);
             Built::Bpe(r?)
         }
-    })
+    };
+    Ok((b, mf))
 }
 
 /// random well-formed merge table: every entry is the concatenation of two earlier tokens
@@ -248,7 +262,7 @@ impl Prop for C04 {
         let file = PathBuf::from(format!("/tmp/c04/{}-{}.merges", std::process::id(), self.counter));
         let c2 = c.clone();
         let out = guard(move || {
-            let built = match build(&c2, &file) {
+            let (built, mf) = match build(&c2, &file) {
                 Ok(b) => b,
                 Err(_) => return Val::L(vec![Val::I(0)]),
             };
@@ -270,7 +284,7 @@ impl Prop for C04 {
                 _ => Val::none(),
             };
             let dec = Val::list(ids.iter(), |id| Val::opt(t.de_tokenize(&[*id], false).ok(), |s| Val::str(&s)));
-            Val::L(vec![
+            let mut o = vec![
                 Val::I(1),
                 Val::u(vs),
                 bytes_list_val(&vocab),
@@ -282,7 +296,12 @@ impl Prop for C04 {
                 ids_val(t.suffix_token_ids()),
                 unk,
                 dec,
-            ])
+            ];
+            if let Some(mf) = mf {
+                o.push(mf.bytes_val());
+                o.push(mf.loaded_val());
+            }
+            Val::L(o)
         });
         let mut tags = vec![["byte", "char", "bpe"][c.kind].to_string()];
         let ctor_ok = out.nth(0).and_then(|v| v.as_i()) == Some(1);
